@@ -89,9 +89,11 @@ CONFIG["C13"] = dict(
     trusted_base=COMMON_TB + ["modelled, not verified: Go crypto/sha256, crypto/sha512, x/crypto/sha3 cSHAKE, the amd64 Keccak assembly / pure Go keccakF1600 (compared with Model.KeccakF / Model.Sha2, themselves checked against KATs in the kernel)"],
     technique="Lean 4 proof (all-splits theorem for the Go sponge buffer logic over an arbitrary permutation; bytepad minimality; KMAC object laws) + differential run vs FIPS/SP 800-185 reference",
     level_text="Theorems: for every rate>0, domain byte, absorb function, prior state and every split into Write calls, Reset+Writes+SumHash = reference digest; ComputeHash independent of prior state; "
+               "refHash_is_fips202 (Proofs/SpongeFips): that reference digest (full blocks, then the padded tail block the Go code builds) IS the FIPS 202 sponge - pad10*1 with the domain suffix over the whole message, absorb every block, squeeze - for every rate, domain byte, message and output length up to the rate, "
+               "hence sha3_hashers_equal_standard: SHA3-256, SHA3-384 and Keccak-256 objects return the standard's digest for every input and every chunking (the run-time cross-check of the two references stays as a redundant guard); "
                "never-reset sentinel; one-shot helpers; left_encode/right_encode of the Go loops = SP 800-185 for every 64-bit value; encode_string; bytepad = SP 800-185 bytepad using the pad expression regenerated from kmac.go; "
                "kmac_eq_spec: the KMAC object's ComputeHash equals SP 800-185 KMAC128 for every key/customizer/data/output size; KMAC guards and clone semantics.",
-    level_note="Lean kernel; keccakF1600 and SHA-2 compression functions are compared, not verified; refHash (absorb full blocks then padded block) vs FIPS pad-then-absorb equivalence is checked at run time on every case, not proved",
+    level_note="Lean kernel; keccakF1600 and SHA-2 compression functions are compared, not verified",
     assumptions=["outputs of the sponge hashers are not longer than the rate (true for the three configured ones)"],
 )
 
